@@ -97,7 +97,11 @@ func (w *FindRules) Do(ctx *Context, loc *Location) {
 	w.Children = make([]*EvalRule, 0, 0)
 	for id, rule := range rs {
 		Log(DEBUG, ctx, "FindRules.Do", "rid", id)
-		rule.Id = id
+		if rule.Id != id {
+			// Rules from the state's cache already know their ids
+			// (and are shared with other requests).
+			rule.Id = id
+		}
 
 		var bss []Bindings
 		var err error
